@@ -29,9 +29,9 @@ Proof. destruct 1; simpl; auto. Qed.
 
 Lemma fill_ids_incl E : forall t r, fillT E t r -> incl (tids t) (tids r).
 Proof.
-  apply fillT_ind'.
-  - intros i n k K _ a [Ha|[]]. left; exact Ha.
-  - intros i n k ks rs _ _ HF. rewrite !tids_T. intros a [Ha|Ha]; [left; exact Ha | right].
+  intros t r H. induction H as [i n k K _ | i n k ks rs _ _ HF] using fillT_ind'.
+  - intros a [Ha|[]]. left; exact Ha.
+  - rewrite !tids_T. intros a [Ha|Ha]; [left; exact Ha | right].
     induction HF as [|y ry ks' rs' Hy _ IH]; [exact Ha|]. rewrite fids_cons in *. apply in_app_iff in Ha as [Ha|Ha]; apply in_app_iff; auto.
 Qed.
 
@@ -43,9 +43,9 @@ Qed.
 
 Lemma fill_nohole_eq E : forall t r, fillT E t r -> (forall d, In d (hdom E) -> ~ In d (tids t)) -> t = r.
 Proof.
-  apply fillT_ind'.
-  - intros i n k K Hin H. exfalso. apply (H i); [apply in_map_iff; exists (i, K); auto | left; reflexivity].
-  - intros i n k ks rs _ _ HF H. f_equal.
+  intros t r H0. induction H0 as [i n k K Hin | i n k ks rs _ _ HF] using fillT_ind'; intro H.
+  - exfalso. apply (H i); [apply in_map_iff; exists (i, K); auto | left; reflexivity].
+  - f_equal.
     assert (Hk : forall d, In d (hdom E) -> ~ In d (fids ks)).
     { intros d Hd Hi. apply (H d Hd). rewrite tids_T. right. exact Hi. }
     clear H. induction HF as [|y ry ks' rs' Hy _ IH]; [reflexivity|]. rewrite fids_cons in Hk. f_equal.
@@ -86,9 +86,9 @@ Proof. apply map_app. Qed.
 
 Lemma fill_weaken E c K : forall t r, fillT E t r -> ~ In c (tids t) -> fillT (E ++ [(c, K)]) t r.
 Proof.
-  apply fillT_ind'.
-  - intros i n k K' Hin _. apply fill_hole. apply in_app_iff. auto.
-  - intros i n k ks rs Hn _ HF Hc. rewrite tids_T in Hc. apply fill_node.
+  intros t r H. induction H as [i n k K' Hin | i n k ks rs Hn _ HF] using fillT_ind'; intro Hc.
+  - apply fill_hole. apply in_app_iff. auto.
+  - rewrite tids_T in Hc. apply fill_node.
     + rewrite hdom_app, in_app_iff. simpl. intros [H|[H|[]]]; [contradiction | subst; apply Hc; left; reflexivity].
     + assert (Hk : ~ In c (fids ks)) by (intro; apply Hc; right; assumption). clear Hc.
       induction HF as [|y ry ks' rs' Hy _ IH]; constructor; rewrite fids_cons, in_app_iff in Hk; tauto.
@@ -102,7 +102,7 @@ Proof.
 Qed.
 
 (* ---- extraction: the kids of c are taken out ---- *)
-Lemma fill_clear_kids E c ct (P : tree -> tree -> Prop) ks rs :
+Lemma fill_clear_kids E c ct ks rs :
   (forall d, In d (hdom E) -> ~ In d (tids ct)) ->
   Forall2 (fillT E) ks rs ->
   Forall2 (fun t r => NoDup (tids t) -> find_t c t = Some ct -> fillT (E ++ [(c, t_kids ct)]) (upd_t c clear_kids t) r) ks rs ->
@@ -112,7 +112,7 @@ Proof.
   intros Hno HF HP. revert HF. induction HP as [|y ry ks' rs' Hy _ IH]; intros HF ND Hfind; [discriminate|].
   inversion HF as [|? ? ? ? Fy Fr]; subst. rewrite fids_cons in ND. cbn [map]. simpl in Hfind.
   destruct (find_t c y) as [ct'|] eqn:Ey.
-  - inversion Hfind; subst ct'. constructor; [apply Hy; [eapply NoDup_app_l; exact ND | exact Ey]|].
+  - inversion Hfind; subst ct'. constructor; [apply Hy; [eapply NoDup_app_l; exact ND | reflexivity]|].
     assert (Hc : In c (tids y)) by (apply find_t_some in Ey as [E1 E2]; subst; apply E2, tids_self).
     assert (Hn : ~ In c (fids ks')) by (intro H; eapply NoDup_app_disj; eassumption).
     fold (upd_f c clear_kids ks'). rewrite upd_f_notin by exact Hn. apply fillF_weaken; assumption.
@@ -126,11 +126,11 @@ Lemma fill_clear E c ct :
   forall t r, fillT E t r -> NoDup (tids t) -> find_t c t = Some ct ->
               fillT (E ++ [(c, t_kids ct)]) (upd_t c clear_kids t) r.
 Proof.
-  intro Hno. apply fillT_ind'.
-  - intros i n k K Hin _ Hf. simpl in Hf. exfalso. destruct (N.eqb c i) eqn:Ec.
+  intros Hno t r H. induction H as [i n k K Hin | i n k ks rs Hn HF HP] using fillT_ind'; intros ND Hf.
+  - simpl in Hf. exfalso. destruct (N.eqb c i) eqn:Ec.
     + inversion Hf; subst. apply (Hno i); [apply in_map_iff; exists (i, K); auto | left; reflexivity].
     + discriminate.
-  - intros i n k ks rs Hn HF HP ND Hf. simpl in Hf. simpl. destruct (N.eqb c i) eqn:Ec.
+  - simpl in Hf. simpl. destruct (N.eqb c i) eqn:Ec.
     + apply N.eqb_eq in Ec. subst i. inversion Hf; subst ct. simpl.
       assert (ks = rs).
       { eapply fillF_nohole_eq; [exact HF|]. intros d Hd Hi. apply (Hno d Hd). rewrite tids_T. right. exact Hi. }
@@ -158,14 +158,14 @@ Lemma fill_plug E c K :
   ~ In c (hdom E) -> (forall d, In d (hdom E) -> ~ In d (fids K)) ->
   forall t r, fillT ((c, K) :: E) t r -> fillT E (upd_t c (add_kids K) t) r.
 Proof.
-  intros Hc HK. apply fillT_ind'.
-  - intros i n k K' Hin. simpl. destruct (N.eqb c i) eqn:Ec.
+  intros Hc HK t r H. induction H as [i n k K' Hin | i n k ks rs Hn _ HP] using fillT_ind'.
+  - simpl. destruct (N.eqb c i) eqn:Ec.
     + apply N.eqb_eq in Ec. subst i. destruct Hin as [Hin|Hin].
       * inversion Hin; subst K'. simpl. apply fill_refl. intros d Hd. rewrite tids_T. intros [H|H]; [subst; contradiction | exact (HK d Hd H)].
       * exfalso. apply Hc. apply in_map_iff. exists (c, K'). auto.
     + destruct Hin as [Hin|Hin]; [inversion Hin; subst; rewrite N.eqb_refl in Ec; discriminate|].
       simpl. apply fill_hole. exact Hin.
-  - intros i n k ks rs Hn _ HP. simpl in Hn. simpl. destruct (N.eqb c i) eqn:Ec.
+  - simpl in Hn. simpl. destruct (N.eqb c i) eqn:Ec.
     + apply N.eqb_eq in Ec. subst. exfalso. apply Hn. left; reflexivity.
     + apply fill_node; [tauto|]. apply Forall2_map_l. exact HP.
 Qed.
@@ -196,16 +196,16 @@ Qed.
 
 Lemma fill_path E i : forall t r, fillT E t r -> NoDup (tids r) -> In i (tids t) -> path_t i t = path_t i r.
 Proof.
-  apply fillT_ind'.
-  - intros j n k K _ _ [H|[]]. subst. rewrite !path_t_unfold, N.eqb_refl. reflexivity.
-  - intros j n k ks rs _ HF HP ND Hi. rewrite !path_t_unfold. destruct (N.eqb i j) eqn:Ej; [reflexivity|].
+  intros t r H0. induction H0 as [j n k K _ | j n k ks rs _ HF HP] using fillT_ind'; intros ND Hi.
+  - destruct Hi as [H|[]]. subst. rewrite !path_t_unfold, N.eqb_refl. reflexivity.
+  - rewrite !path_t_unfold. destruct (N.eqb i j) eqn:Ej; [reflexivity|].
     rewrite tids_T in *. destruct Hi as [Hi|Hi]; [subst; rewrite N.eqb_refl in Ej; discriminate|].
-    inversion ND; subst. rewrite (fill_path_kids E i ks rs); auto.
+    inversion ND; subst. rewrite (fill_path_kids E i ks rs HF HP); auto.
 Qed.
 
 Lemma fillF_path E i F R : fillF E F R -> NoDup (fids R) -> In i (fids F) -> path_f i F = path_f i R.
 Proof.
-  intros HF. apply fill_path_kids; [exact HF|]. induction HF; constructor; [|assumption]. apply fill_path; assumption.
+  intros HF. apply (fill_path_kids E); [exact HF|]. induction HF; constructor; [|assumption]. intros; eapply fill_path; eassumption.
 Qed.
 
 (* the AbsID of an object of the current graph is its AbsID in the original graph *)
